@@ -4,6 +4,13 @@ package gen
 // combination of its optional parts, pipelines of up to two operators, let
 // statements and empty statements.
 
+import (
+	"regexp"
+	"strings"
+)
+
+var plainWord = regexp.MustCompile(`^[A-Za-z_][A-Za-z0-9_]*$`)
+
 func id(n string) *Ident  { return &Ident{Name: n} }
 func qid(n string) *Ident { return &Ident{Name: n, Quoted: true} }
 
@@ -112,6 +119,15 @@ func OperatorVariants() []Op {
 		{Col("k"), &Binary{Op: "<", X: lr("$left", "x"), Y: lr("$right", "y")}},
 		{&Binary{Op: "==", X: &Paren{X: lr("$left", "x")}, Y: lr("$right", "y")}, &Binary{Op: "!=", X: Col("y"), Y: NumLit("2", "2")}},
 	}
+	// parenthesised keys and conditions in every position of the list
+	pk := &Paren{X: Col("k")}
+	conds = append(conds,
+		[]Expr{pk},
+		[]Expr{&Paren{X: pk}},
+		[]Expr{&Binary{Op: "==", X: lr("$left", "a"), Y: lr("$right", "b")}, pk},
+		[]Expr{pk, Col("j")},
+		[]Expr{Col("j"), &Paren{X: &Binary{Op: "==", X: lr("$left", "a"), Y: lr("$right", "b")}}, QCol("k")},
+	)
 	for _, k := range []string{"", "inner", "innerunique", "leftouter"} {
 		for ri, r := range right {
 			for ci, c := range conds {
@@ -122,6 +138,16 @@ func OperatorVariants() []Op {
 		}
 	}
 	out = append(out, &As{Name: *id("Q")}, &As{Name: *qid("Q R")})
+	// property values are expressions: signed numbers, parenthesised values, calls
+	signed := []Expr{&Unary{Op: "-", X: NumLit("10", "10")}, &Unary{Op: "+", X: NumLit("2.5e3", "2.5e3")}, &Paren{X: NumLit("1", "1")}, &Call{Func: "f", Args: []Expr{Col("a")}}, &Binary{Op: "+", X: Col("a"), Y: NumLit("1", "1")}}
+	for i, v := range signed {
+		out = append(out,
+			&Render{Chart: *id("c"), With: true, Props: []Prop{{Name: *id("ymin"), Value: v}}},
+			&Render{Chart: *id("c"), With: true, Props: []Prop{{Name: *id("title"), Value: StrLit("t")}, {Name: *id("ymin"), Value: v}, {Name: *id("ymax"), Value: signed[(i+1)%len(signed)]}}},
+		)
+	}
+	// a property assigned twice
+	out = append(out, &Render{Chart: *id("c"), With: true, Props: []Prop{{Name: *id("title"), Value: StrLit("draft")}, {Name: *id("x"), Value: NumLit("1", "1")}, {Name: *id("y"), Value: Col("v")}, {Name: *id("title"), Value: StrLit("final")}}})
 	vals := []Expr{StrLit("t"), Col("stacked"), NumLit("10", "10"), QCol("p q")}
 	out = append(out, &Render{Chart: *id("barchart")}, &Render{Chart: *qid("pie chart")})
 	for _, v := range vals {
@@ -171,6 +197,41 @@ func Programs() []*Program {
 				Single(&Pipeline{Source: name, Ops: []Op{&Where{Kw: "where", Pred: &Binary{Op: "==", X: col, Y: &Name{Parts: []Ident{{Name: "t"}, name}}}}, &As{Name: name}}}),
 				Single(&Pipeline{Source: *id("T"), Ops: []Op{&Project{Cols: []Column{{Name: &name}, {Name: &name, X: col}}}, &Join{Right: &Pipeline{Source: name}, On: []Expr{col}}, &Summarize{Cols: []Column{{Name: &name, X: &Call{Func: "count"}}}, By: []Column{{Name: &name, X: col}}, HasBy: true}}}),
 			)
+		}
+	}
+	// a let whose name coincides with an identifier of the query (table, column, key, alias, function, property, chart):
+	// the statement's tree does not depend on what is bound
+	syntaxWords := map[string]bool{}
+	for _, w := range strings.Fields("where filter sort order by asc desc nulls first last take limit top project extend summarize join kind on as render with count in and or let inner innerunique leftouter true false null") {
+		syntaxWords[w] = true
+	}
+	var coincideOps []Op
+	coincideOps = append(coincideOps, reps...)
+	for _, op := range ops {
+		switch op.(type) {
+		case *Join, *Render:
+			coincideOps = append(coincideOps, op)
+		}
+	}
+	for _, op := range coincideOps {
+		p := &Pipeline{Source: *id("T"), Ops: []Op{op}}
+		names := map[string]bool{}
+		var order []string
+		for _, l := range Print(Single(p)).Lexemes {
+			if plainWord.MatchString(l) && !syntaxWords[l] && !names[l] {
+				names[l] = true
+				order = append(order, l)
+			}
+		}
+		if len(order) > 4 {
+			order = order[:4]
+		}
+		for i, n := range order {
+			lets := []Stmt{&Let{Name: *id(n), X: NumLit("7", "7")}}
+			if i == 1 {
+				lets = append([]Stmt{&Let{Name: *id("lo"), X: NumLit("10", "10")}}, lets...)
+			}
+			out = append(out, &Program{Stmts: append(lets, p)})
 		}
 	}
 	// lets and empty statements
